@@ -264,9 +264,9 @@ pub fn run(ctx: &Ctx) -> i32 {
             .spawn()
     };
     let (c1, c2) = (spawn(), spawn());
-    let shards = ctx.size(48, 256);
-    let per = ctx.size(60, 400);
-    let repeats = ctx.size(20, 200);
+    let shards = ctx.size(48, 192);
+    let per = ctx.size(60, 200);
+    let repeats = ctx.size(20, 120);
     let rep = par_shards(ctx, shards, |shard| {
         let mut rep = Report::new();
         let mut rng = Rng::new(ctx.seed, "C12", shard as u64);
